@@ -17,6 +17,7 @@
 #include "../Util/SimpleRandom.h"
 #include "UpperHessenbergQR.h"
 #include "DoubleShiftQR.h"
+#include "../Util/VerifHooks.h"
 
 namespace Spectra {
 
@@ -30,6 +31,9 @@ namespace Spectra {
 template <typename Scalar, typename ArnoldiOpType>
 class Arnoldi
 {
+#ifdef SPECTRA_VERIF
+    friend struct ::SpectraVerifAccess;
+#endif
 private:
     // The real part type of the matrix element
     using RealScalar = typename Eigen::NumTraits<Scalar>::Real;
@@ -106,7 +110,10 @@ protected:
             // If the condition is satisfied, simply return
             // Otherwise, go to the next iteration and try a new random vector
             if (ortho_err < m_eps * fnorm)
+            {
+                SPECTRA_VERIF_OBSERVE("arnoldi.expand", this);
                 return;
+            }
         }
     }
 
@@ -177,6 +184,7 @@ public:
 
         // Indicate that this is a step-1 factorization
         m_k = 1;
+        SPECTRA_VERIF_OBSERVE("arnoldi.init", this);
     }
 
     // Arnoldi factorization starting from step-k
@@ -277,6 +285,7 @@ public:
 
         // Indicate that this is a step-m factorization
         m_k = to_m;
+        SPECTRA_VERIF_OBSERVE("arnoldi.factorize", this);
     }
 
     // Apply H -> Q'HQ, where Q is from a double shift QR decomposition
@@ -321,6 +330,7 @@ public:
         Vector fk = m_fac_f * Q(m_m - 1, m_k - 1) + m_fac_V.col(m_k) * m_fac_H(m_k, m_k - 1);
         m_fac_f.swap(fk);
         m_beta = m_op.norm(m_fac_f);
+        SPECTRA_VERIF_OBSERVE("arnoldi.compress", this);
     }
 };
 
